@@ -21,6 +21,17 @@ func (v *hasSideEffectVisitor) Visit(node ast.Node) (w ast.Visitor) {
 	if v.hasSideEffect {
 		return nil
 	}
+	if e, isExpr := node.(ast.Expr); isExpr {
+		if tv, ok := v.info.Types[e]; ok && (tv.Value != nil || tv.IsType()) {
+			return nil // constants and types are evaluated at compile time
+		}
+	}
+	if v.mayPanic(node) {
+		// A run-time panic is an observable effect: the initializer must run
+		// even if its value is never used.
+		v.hasSideEffect = true
+		return nil
+	}
 	switch n := node.(type) {
 	case *ast.CallExpr:
 		if _, isSig := v.info.TypeOf(n.Fun).(*types.Signature); isSig { // skip conversions
@@ -34,4 +45,61 @@ func (v *hasSideEffectVisitor) Visit(node ast.Node) (w ast.Visitor) {
 		}
 	}
 	return v
+}
+
+// mayPanic reports whether evaluating the node itself (not its operands) can
+// raise a run-time panic: indexing and slicing, nil dereference, integer
+// division, single-value type assertion and slice to array conversion.
+func (v *hasSideEffectVisitor) mayPanic(node ast.Node) bool {
+	underlying := func(e ast.Expr) types.Type {
+		if t := v.info.TypeOf(e); t != nil {
+			return t.Underlying()
+		}
+		return nil
+	}
+	switch n := node.(type) {
+	case *ast.IndexExpr:
+		switch t := underlying(n.X).(type) {
+		case *types.Slice, *types.Pointer:
+			return true
+		case *types.Basic:
+			return t.Info()&types.IsString != 0
+		case *types.Array:
+			return v.info.Types[n.Index].Value == nil
+		}
+	case *ast.SliceExpr:
+		return true
+	case *ast.StarExpr:
+		return true
+	case *ast.SelectorExpr:
+		if sel, ok := v.info.Selections[n]; ok && sel.Kind() == types.FieldVal {
+			if sel.Indirect() {
+				return true
+			}
+			if _, isPtr := underlying(n.X).(*types.Pointer); isPtr {
+				return true
+			}
+		}
+	case *ast.TypeAssertExpr:
+		return n.Type != nil
+	case *ast.BinaryExpr:
+		if n.Op == token.QUO || n.Op == token.REM {
+			if b, ok := underlying(n).(*types.Basic); ok && b.Info()&types.IsInteger != 0 {
+				return v.info.Types[n.Y].Value == nil
+			}
+		}
+	case *ast.CallExpr:
+		if tv, ok := v.info.Types[n.Fun]; ok && tv.IsType() && len(n.Args) == 1 {
+			if _, fromSlice := underlying(n.Args[0]).(*types.Slice); fromSlice {
+				switch t := tv.Type.Underlying().(type) {
+				case *types.Array:
+					return true
+				case *types.Pointer:
+					_, toArrayPtr := t.Elem().Underlying().(*types.Array)
+					return toArrayPtr
+				}
+			}
+		}
+	}
+	return false
 }
